@@ -340,7 +340,7 @@ class ProgGen:
     def __init__(self, rng, **kw):
         self.rng = rng
         self.k = dict(n_wires=8, depth=3, use_regfile=None, use_mem=None, n_banks=None, halt_at=None,
-                      small_addr=True, stride=10, allow_div=True, wide_names=False)
+                      small_addr=True, stride=10, allow_div=True, wide_names=False, chains=0.12)
         self.k.update(kw)
         self.stmts = []          # each a string (one statement)
         self.env = []            # (name, width|None, is_const)
@@ -362,9 +362,21 @@ class ProgGen:
 
     def add_wire(self, name, width, text):
         self.stmts.append("wire %s : %d;" % (name, width))
-        self.stmts.append("%s = %s;" % (name, text))
         self.env.append((name, width, False))
         self.decl[name] = width
+        if self.rng.random() < self.k["chains"]:
+            # a chained assignment: two or three wires of one width driven by one statement
+            names = [name]
+            for _ in range(self.rng.randint(1, 2)):
+                twin = self.fresh()
+                self.stmts.append("wire %s : %d;" % (twin, width))
+                self.env.append((twin, width, False))
+                self.decl[twin] = width
+                names.append(twin)
+            self.rng.shuffle(names)
+            self.stmts.append("%s = %s;" % (" = ".join(names), text))
+        else:
+            self.stmts.append("%s = %s;" % (name, text))
 
     def assign_builtin(self, name, width, text):
         self.stmts.append("%s = %s;" % (name, text))
@@ -416,6 +428,12 @@ class ProgGen:
         if use_mem:
             tasks += [("memread",)]
         tasks += [("wire",)] * k["n_wires"]
+        # control signals of the extra banks: assigned somewhere in the middle, so that later
+        # wires (and other banks' control signals) can read them in the same cycle
+        for li, lo, regs in banks:
+            for sig in ("stall", "bubble"):
+                if rng.random() < 0.7:
+                    tasks.append(("ctl", "%s_%s" % (sig, lo)))
         rng.shuffle(tasks)
         have_i10 = False
         for t in tasks:
@@ -426,6 +444,9 @@ class ProgGen:
                 port = t[0][-1]
                 self.assign_builtin("reg_src" + port, 4, self.expr(4))
                 self.env.append(("reg_output" + port, 64, False))
+            elif t[0] == "ctl":
+                self.stmts.append("%s = %s;" % (t[1], self.expr(1, 2)))
+                self.env.append((t[1], 1, False))
             elif t[0] == "memread":
                 self.assign_builtin("mem_addr", 64, self.addr_expr())
                 self.assign_builtin("mem_readbit", 1, self.expr(1))
@@ -445,10 +466,6 @@ class ProgGen:
         for li, lo, regs in banks:
             for r, w, d in regs:
                 self.stmts.append("%s_%s = %s;" % (li, r, self.expr(w)))
-            if rng.random() < 0.7:
-                self.stmts.append("stall_%s = %s;" % (lo, self.expr(1, 2)))
-            if rng.random() < 0.7:
-                self.stmts.append("bubble_%s = %s;" % (lo, self.expr(1, 2)))
         # Stat
         if k["halt_at"] is not None:
             self.stmts.append("Stat = [ P_cyc == %d : STAT_HLT; 1 : STAT_AOK; ];" % k["halt_at"])
